@@ -24,6 +24,10 @@ def run(tier):
         run_config(chk, module, cfg, ov,
                    lambda rec, i: {"rec": rec, "seed": chk.seed, "modes": modes, "rot": (i + chk.seed) % rots},
                    "harness.segments", "replay_segments_case", sample_fn=sample_fn)
+    # TRACE (code -> spec): the repository's own scenario / data files, parsed by the independent structural parser,
+    # are run through the reader model (Trace_Segments.tla) and compared with what TdmsFile.read observed
+    from ..segtrace import run_trace
+    run_trace(chk, "C02-segtrace")
     chk.assumptions += ["independent byte encoder harness/enc.py lays out what the specification's encoded file says",
                         "TLC explores the bounded model exhaustively"]
     return chk.finish("model_checking", RULE)
